@@ -20,6 +20,19 @@ CLAIMED = {
         "note": "linear-solver contract (exact minimum-norm solution of a consistent system); floats as reals; matrix-inversion stages that use "
                 "1e-18/1e18 placeholders are executed but not compared; cnls (lmfit) and time-constant generation are outside",
     },
+    "C08": {
+        "category": "other",
+        "text": "The real result-assembly code of evaluate_log_F_ext (least-squares and matrix-inversion kinds, both representations), perform_zhit "
+                "(both representations, incl. the offset shift of admittance data with a negative real part) and fit_circuit (_fit_process, "
+                "_to_lmfit/_from_lmfit, _residual, _convert_intermediate_result, _extract_parameters) runs on a data set whose unmasked and masked "
+                "points are symbolic, with the numerical stages stubbed by arbitrary symbolic outputs. z3 decides whether frequencies can differ "
+                "from the unmasked input frequencies, residuals from (Z_data-Z_model)/|Z_data|, pseudo chi-squared from the sum of squared residual "
+                "moduli, reported impedances from the attached circuit's impedance; the solver terms of all result fields are scanned for variables "
+                "of masked points (non-interference); the input data set and circuit must be unchanged. For fit_circuit also: values within limits, "
+                "fixed parameters unchanged, constraint expressions hold, parameter table equals the returned circuit.",
+        "design_ref": "DESIGN.md section 4, C08",
+        "note": "numerical stages are stubs (lmfit.minimize by its contract); DRT result classes are not covered; 3-4 unmasked + 1-2 masked points",
+    },
     "C09": {
         "category": "other",
         "text": "Metamorphic relations decided by z3 on the real code with symbolic spectra and symbolic positive scale factors: design matrices at "
